@@ -379,9 +379,12 @@ def run_config(cfg, res):
         if c < 0.45:
           # list with good and bad entries
           ents, its = [], []
-          for _ in range(r.randint(0, 8)):
+          # now and then a frame with dozens of entries most of which are malformed (counters, log limits and the like
+          # must not change what happens to entry number 21 or 101)
+          crowd = r.random() < 0.12
+          for _ in range(r.choice([21, 22, 25, 40, 60, 101, 130]) if crowd else r.randint(0, 8)):
             idx += 1
-            if r.random() < 0.55:
+            if r.random() < (0.2 if crowd else 0.55):
               name = 'v%d.%s' % (idx, gen.metric_name(r, nonascii=r.random() < 0.5)) + tag_tail(r)
               t = r.randrange(0, 2 ** 32)
               v = gen.value(r)
